@@ -7,7 +7,7 @@ from .c03 import return_alts, is_err_path, decoded_offset, r5_wrappers, r3_reset
 
 PID = "C02"
 META = {
-    "explanation": "Static analysis of the seek path on the MIR of the current tree: (R1) every index entry is keyed by the flushed block's last key, (R2) one probe flows unchanged through every level of the descent and the offset followed is the one the last index level returned, (R3) every comparison that touches keys is inventoried in canonical form `stored REL probe` with the action of each outcome, (R4) the writer pushes offset-table slots exactly at interval boundaries before appending the entry and the reader rebuilds the table in the same order. Necessary conditions of exact ceiling/floor/match; the algorithm's correctness over all key sets is not decided.",
+    "explanation": "Static analysis of the seek path on the MIR of the current tree: (R1) every index entry is keyed by the flushed block's last key, (R2) one probe flows unchanged through every level of the descent and the offset followed is the one the last index level returned, (R3) every comparison that touches keys is inventoried in canonical form `stored REL probe` with the action of each outcome, (R4) the writer pushes offset-table slots exactly at interval boundaries before appending the entry and the reader rebuilds the table in the same order. Necessary conditions of exact ceiling/floor/match; the algorithm's correctness over all key sets is not decided. The property quantifies over files this Writer emits and is answered through this cursor: the shared file-wellformedness and cursor-traversal rules (rules/shared.py: counting sink, offsets read before the write, pending block, trailer last, varint / entry framing; wrappers, recursive reload, mirror, reset, in-block steps) are re-run as necessary conditions.",
     "assumptions": ["core::cmp lexicographic ordering on [u8] and Option<&[u8]>", "slice::binary_search_by_key contract"],
 }
 
@@ -25,6 +25,9 @@ def run(ck):
         ck.guard("C02-R5", r5_wrappers, ck, F, "C02-R5")
         ck.guard("C02-R5", r7_mirror, ck, F, "C02-R5")
         ck.guard("C02-R5", r3_reset, ck, F, "C02-R5")
+        from . import shared
+        shared.file_wellformed(ck, F, "C02-R6")
+        shared.cursor_traversal(ck, F, "C02-R5")
     ck.trusted += ["rustc MIR construction", "core slice ordering and binary_search_by_key"]
 
 
@@ -165,6 +168,26 @@ def r3_rel(ck, F, R="C02-R3"):
             brk = [s for s in st_sites if le.dominates(t_t, s.bb)]
             ok = len(keep) >= 1 and not brk and le.in_loop(c["site"].bb)
         ck.ob(R, "scan-arm-actions", ok, "not-greater => remember this offset and continue; greater => leave the loop with the previous offset", le, c["site"])
+    # --- BlockCursor backward step: the scan from the previous table slot stops on the entry the cursor points at,
+    # recognised by *whole-key* equality (keys are unique, so nothing weaker identifies it: a prefix test stops early
+    # on `x` before `xy`, seeded C04-18)
+    pv = F.body(A("bc_prev"))
+    pc = [c for c in byte_comparisons(pv) if pv.in_loop(c["site"].bb)]
+    ck.exact(R, "scan comparisons in BlockCursor backward step", len(pc), 1, F.config)
+    for c in pc:
+        ents = [x for side in (c["a"], c["b"]) for x in side.calls(A("block_entry_at"))]
+        at_cur = [x for x in ents if len(x.a) > 1 and (lambda o: o is not None and is_self_field(o, "current_offset"))(unwrap_payload(x.a[1], "Some") or x.a[1])]
+        ok = c["op"] in ("==", "!=") and len(ents) == 2 and len(at_cur) >= 1
+        ck.ob(R, "prev-scan-stops-on-current-key", ok, f"the backward step's scan compares the scanned key with the key at the current offset by `{c['op']}` on whole keys ({c['callee'].rsplit('::', 2)[-2:]})", pv, c["site"])
+        ed = bool_edges(pv, value_site=c["site"])
+        okb = False
+        if ed and ok:
+            sw, t_t, f_t = ed
+            if c["op"] == "!=":
+                t_t, f_t = f_t, t_t
+            st_sites = [s for s, s_ in pv.sites() if s.i is not None and s_["s"] == "assign" and s_["pl"]["p"] and isinstance(s_["pl"]["p"][-1], dict) and s_["pl"]["p"][-1].get("name") == "current_offset"]
+            okb = any(pv.dominates(f_t, s.bb) for s in st_sites) and not any(pv.dominates(t_t, s.bb) and pv.in_loop(s.bb) for s in st_sites)
+        ck.ob(R, "prev-scan-arm-actions", okb, "different key => remember this offset and go on; the current key => leave the loop with the offset before it", pv, c["site"])
     # exact table hit => that slot; miss => previous slot, none => None
     # --- BlockCursor >=-seek
     ge = F.body(A("bc_ge"))
